@@ -369,6 +369,72 @@ def gen_revert_pattern(seed, idx):
     return {"id": cid, "jobs": [job], "meta": {"font": opts["output_file"], "kinds": ["revert-pattern", edit], "fmt": fmt, "backdate": False, "sweep": False}}
 
 
+def gen_bitmap_pipeline_history(seed, idx):
+    """a walk through the states of the bitmap pipeline on one build directory: pngquant succeeding / giving up
+    (exit 98/99 -> the wrapper falls back to its input), zopflipng on / off, flat / gradient artwork, resolution.
+    Mostly fault-free: the point is the wrapper's fallback path meeting what earlier invocations left behind."""
+    r = gen.rng(seed, "c09bp", idx)
+    rs = gen.rng(seed, "c09bp", idx, "sched")
+    rf = gen.rng(seed, "c09bp", idx, "faults")
+    fmt = r.choice(["cbdt", "sbix"])
+    flat = ["corpus:rect.svg", "corpus:rect2.svg", "corpus:one_rect.svg", "corpus:circle.svg"]
+    # renderings with more than 256 colours at 96-128 px: pngquant --quality 100-100 gives up on these (exit 99)
+    grad = ["corpus:radial_gradient_rect.svg", "corpus:one-o-clock.svg", "corpus:two-o-clock.svg", "corpus:radial_gradient_rect.svg"]
+    names = ["src/emoji_u%04x.svg" % c for c in r.sample(range(0x41, 0x5B), r.randint(1, 3))]
+    state = {"flags": "default", "zopfli": True, "pngquant": True, "res": r.choice([128, 128, 128, 96]),  # small renderings have < 256 colours: pngquant never gives up on them
+             "content": {n: r.choice(flat + grad) for n in names}}
+    FLAGS = {"default": None, "giveup": "--speed 3 --quality 100-100", "lossy": "--speed 10 --quality 40-60"}
+    ops = [{"op": "write", "path": n, "content": c} for n, c in sorted(state["content"].items())]
+    kinds = ["bitmap-pipeline"]
+
+    def argv():
+        o = {"color_format": fmt, "output_file": "Font.ttf", "bitmap_resolution": state["res"]}
+        if FLAGS[state["flags"]]:
+            o["pngquant_flags"] = FLAGS[state["flags"]]
+        if not state["zopfli"]:
+            o["use_zopflipng"] = False
+        if not state["pngquant"]:
+            o["use_pngquant"] = False
+        return gen.flag_args(o) + sorted(state["content"])
+
+    def step():
+        k = r.choice(["flags", "flags", "flags", "zopfli", "content", "content", "pngquant", "res"])
+        if k == "flags":
+            state["flags"] = r.choice([f for f in FLAGS if f != state["flags"]])
+        elif k == "zopfli":
+            state["zopfli"] = not state["zopfli"]
+        elif k == "pngquant":
+            state["pngquant"] = not state["pngquant"]
+        elif k == "res":
+            state["res"] = r.choice([x for x in (96, 128) if x != state["res"]])
+        else:
+            n = r.choice(sorted(state["content"]))
+            c = r.choice([x for x in flat + grad if x != state["content"][n]])
+            state["content"][n] = c
+            ops.append({"op": "write", "path": n, "content": c})
+        kinds.append(k)
+
+    n_inv = r.randint(2, 4)
+    for i in range(n_inv):
+        plan = {}
+        if rf.random() < 0.2:
+            plan = _fault_plan(rf, ["step"], True)
+        op = {"op": "invoke", "cwd": ".", "argv": argv(), "build_dir": "build", "label": "h%d" % i, "sched": gen.sched(rs)}
+        op.update(plan)
+        ops.append(op)
+        for _ in range(r.choice([1, 1, 2])):
+            step()
+    final = argv()
+    ops.append({"op": "invoke", "cwd": ".", "argv": final, "build_dir": "build", "label": "final", "sched": gen.sched(rs), "final": True})
+    ops.append({"op": "rename", "src": "build", "dst": "build.aside", "keep": True})
+    ops.append({"op": "invoke", "cwd": ".", "argv": final, "build_dir": "build", "label": "ref", "final": True,
+                "sched": {"j": 1, "policy": "manifest", "seed": 0, "exec_at": "finish"}})
+    cid = "c09-%d-bp%d" % (seed, idx)
+    job = {"id": cid + ".j0", "root_id": "c09/%d/bp%d" % (seed, idx), "hashseed": H(seed, "c09bp", idx, "hs") % 4294967296,
+           "clock_seed": H(seed, "c09bp", idx, "clock") % (1 << 31), "readdir_seed": H(seed, "c09bp", idx, "rd") % (1 << 31), "ops": ops}
+    return {"id": cid, "jobs": [job], "meta": {"font": "Font.ttf", "kinds": kinds, "fmt": fmt, "backdate": False, "sweep": False}}
+
+
 def gen_vf_history(seed, idx):
     """a history on a two-master variable font project (UFO directories as intermediate outputs)"""
     r = gen.rng(seed, "c09vf", idx, "ops")
@@ -548,6 +614,7 @@ def gen_cases(seed, tier, scale=1.0):
     cases = [gen_history(seed, i, tier) for i in range(n)]
     cases += [gen_vf_history(seed, i) for i in range(max(1, n // 12))]
     cases += [c for c in (gen_revert_pattern(seed, i) for i in range(max(1, n // 15))) if c is not None]
+    cases += [gen_bitmap_pipeline_history(seed, i) for i in range(max(1, n // 10))]
     for c in cases:
         c["jobs"][0]["keep_trace"] = False
     if tier == "thorough":
@@ -667,7 +734,7 @@ def describe(case):
 def extra_coverage(cases, results):
     probes = {"option_dropped_again": 0, "removed_name_brought_back": 0, "reverts": 0, "moved_to_other_directory": 0, "histories_with_backdating": 0,
               "final_rebuilt_nothing_but_font": 0, "torn_planned_not_fired": 0, "sweep_cases": 0, "failed_output_trusted_states": 0,
-              "variable_font_histories": 0}
+              "variable_font_histories": 0, "pngquant_gave_up_and_input_was_reused": 0, "bitmap_pipeline_histories": 0}
     for c in cases:
         ks = c["meta"]["kinds"]
         probes["option_dropped_again"] += sum(1 for k in ks if k.startswith("option-dropped"))
@@ -675,6 +742,7 @@ def extra_coverage(cases, results):
         probes["reverts"] += ks.count("revert")
         probes["moved_to_other_directory"] += ks.count("move_dir")
         probes["variable_font_histories"] += 1 if ks[:1] == ["vf"] else 0
+        probes["bitmap_pipeline_histories"] += 1 if ks[:1] == ["bitmap-pipeline"] else 0
         if c["meta"]["backdate"]:
             probes["histories_with_backdating"] += 1
         if c["meta"]["sweep"]:
@@ -686,6 +754,7 @@ def extra_coverage(cases, results):
             if len(st) == 1:
                 probes["final_rebuilt_nothing_but_font"] += 1
         for r in orch.invokes(results[c["id"]][0]):
+            probes["pngquant_gave_up_and_input_was_reused"] += r.get("pngquant_giveups", 0)
             for n in r.get("ninja", []):
                 if any(a["k"] == "stale.failed_output_trusted" for a in n.get("anomalies", [])):
                     probes["failed_output_trusted_states"] += 1
